@@ -43,6 +43,10 @@ type VerifCfg struct {
 	ExpiryForms bool // C15: let the env pick expiry forms
 	NoEnv       string // comma list of env classes pinned to their default (to focus budgets)
 	ForceFail   bool   // C15: every adapter attempt fails retriably (reach the end of the retry budget)
+	// Free: run WITHOUT the controlled scheduler (plain goroutines; used by the -race pass on the unrewritten package).
+	// Environment answers then come from FreeScript ("class#k" -> answer for the k-th choice of that class).
+	Free       bool
+	FreeScript map[string]int
 }
 
 // VerifAttempt is one logged attempt (batch inclusion or adapter invocation).
@@ -91,6 +95,8 @@ type verifEnv struct {
 	open    map[string]int // adapter invocations currently open per oid
 	stickyBatch   int
 	stickyAdapter int
+	mu            vsched.FreeMutex // guards harness state in free-running mode only
+	freeCount     map[string]int
 	gen     int
 	expiry  map[string]time.Time // action href -> instant at which the server said it expires (zero: never)
 	lastAct map[string]string
@@ -100,7 +106,20 @@ func (e *verifEnv) env(class string, n int) int {
 	if e.pinned[class] {
 		return 0
 	}
-	c := e.ch.Env(n)
+	var c int
+	if e.cfg.Free {
+		if e.freeCount == nil {
+			e.freeCount = map[string]int{}
+		}
+		k := e.freeCount[class]
+		e.freeCount[class]++
+		c = e.cfg.FreeScript[fmt.Sprintf("%s#%d", class, k)]
+		if c >= n {
+			c = 0
+		}
+	} else {
+		c = e.ch.Env(n)
+	}
 	if c != 0 {
 		e.obs.EnvTrace = append(e.obs.EnvTrace, fmt.Sprintf("%s=%d", class, c))
 	}
@@ -119,6 +138,8 @@ func (c *verifBatchClient) SetMaxRetries(n int) { c.maxRetries = n }
 
 func (c *verifBatchClient) Batch(remote string, bReq *batchRequest) (*BatchResponse, error) {
 	e := c.e
+	e.mu.Lock()
+	defer e.mu.Unlock()
 	e.ncall++
 	call := e.ncall
 	now := vsched.Elapsed()
@@ -233,6 +254,8 @@ func (c *verifBatchClient) Batch(remote string, bReq *batchRequest) (*BatchRespo
 type verifImpl struct{ e *verifEnv }
 
 func (t *verifImpl) WorkerStarting(workerNum int) (interface{}, error) {
+	t.e.mu.Lock()
+	defer t.e.mu.Unlock()
 	if workerNum <= 1 && t.e.env("begin", 2) == 1 {
 		return nil, errors.New("adapter-begin-failed")
 	}
@@ -242,6 +265,8 @@ func (t *verifImpl) WorkerEnding(workerNum int, ctx interface{}) {}
 
 func (t *verifImpl) DoTransfer(ctx interface{}, tr *Transfer, cb ProgressCallback, authOkFunc func()) error {
 	e := t.e
+	e.mu.Lock()
+	defer e.mu.Unlock()
 	start := vsched.Elapsed()
 	e.open[tr.Oid]++
 	if e.open[tr.Oid] > 1 {
@@ -350,7 +375,7 @@ func VerifRunQueue(cfg VerifCfg, ch VerifChooser) *VerifObs {
 	var q *TransferQueue
 	added := map[string]int{}
 	var order []string
-	out := vsched.Run(ch.Sched, vsched.Options{AllPoints: cfg.AllPoints, DelayBounded: !cfg.ContextBounded, NewestFirst: cfg.NewestFirst}, func() {
+	body := func() {
 		cli := verifClient()
 		m := &concreteManifest{
 			maxRetries:           cfg.MaxRetries,
@@ -389,7 +414,10 @@ func VerifRunQueue(cfg VerifCfg, ch VerifChooser) *VerifObs {
 			added[oid]++
 			path, missing := filepath.Join(cfg.Scratch, "present"), false
 			if cfg.Upload && added[oid] == 1 {
-				switch e.env("localfile", 4) {
+				e.mu.Lock()
+				lf := e.env("localfile", 4)
+				e.mu.Unlock()
+				switch lf {
 				case 1:
 					path, missing = filepath.Join(cfg.Scratch, "absent"), true
 				case 2:
@@ -405,7 +433,31 @@ func VerifRunQueue(cfg VerifCfg, ch VerifChooser) *VerifObs {
 			<-watchDone
 		}
 		obs.Returned = true
-	})
+	}
+	var out vsched.Outcome
+	if cfg.Free {
+		e.pinned["duration"] = true
+		fin := make(chan string, 1)
+		go func() {
+			defer func() {
+				if r := recover(); r != nil {
+					fin <- fmt.Sprint(r)
+					return
+				}
+				fin <- ""
+			}()
+			body()
+		}()
+		select {
+		case p := <-fin:
+			out.Panic = p
+		case <-time.After(20 * time.Second):
+			out.Deadlock = true
+			out.Blocked = []string{"free-running execution did not finish within the 20 s tool guard"}
+		}
+	} else {
+		out = vsched.Run(ch.Sched, vsched.Options{AllPoints: cfg.AllPoints, DelayBounded: !cfg.ContextBounded, NewestFirst: cfg.NewestFirst}, body)
+	}
 	obs.Panic, obs.Deadlock, obs.Blocked, obs.Horizon = out.Panic, out.Deadlock, out.Blocked, out.Horizon
 	if strings.Contains(out.Panic, "divergence while replaying") || strings.Contains(out.Panic, "out-of-range choice") {
 		panic(out.Panic) // explorer tool error raised inside a controlled thread: not an observation
